@@ -1,6 +1,7 @@
 import Sebuf.DriverSchema
 import Sebuf.Mapping
 import Sebuf.WireEnc
+import Sebuf.GoDec
 namespace Sebuf.Driver
 open Sebuf.Mapping
 
@@ -46,6 +47,31 @@ partial def valOf (j : Lean.Json) : Val :=
   | .ok (Lean.Json.arr a) => .map (a.toList.map fun p => (getStr p "k", valOf (p.getObjValD "v")))
   | _ => .msg []
 
+/-- `Val` in the harness's value format (the inverse of `valOf`). -/
+partial def valToLean : Val → Lean.Json
+  | .int i => Lean.Json.mkObj [("i", Lean.Json.str (toString i))]
+  | .bool b => Lean.Json.mkObj [("b", Lean.Json.bool b)]
+  | .str s => Lean.Json.mkObj [("s", Lean.Json.str (String.ofList s))]
+  | .float t q => Lean.Json.mkObj [("f", Lean.Json.str (String.ofList t)), ("q", Lean.Json.bool q)]
+  | .bytes b => Lean.Json.mkObj [("y", Lean.Json.arr (b.map fun n => Lean.Json.num (Lean.JsonNumber.fromNat n)).toArray)]
+  | .enum n => Lean.Json.mkObj [("e", Lean.Json.str (toString n))]
+  | .ts s n _ _ => Lean.Json.mkObj [("ts", Lean.Json.mkObj [("s", Lean.Json.str (toString s)), ("n", Lean.Json.num (Lean.JsonNumber.fromNat n))])]
+  | .msg fs => Lean.Json.mkObj [("m", Lean.Json.arr (fs.map fun p => Lean.Json.mkObj [("n", Lean.Json.str (String.ofList p.1)), ("v", valToLean p.2)]).toArray)]
+  | .list l => Lean.Json.mkObj [("l", Lean.Json.arr (l.map valToLean).toArray)]
+  | .map kvs => Lean.Json.mkObj [("mp", Lean.Json.arr (kvs.map fun p => Lean.Json.mkObj [("k", Lean.Json.str (String.ofList p.1)), ("v", valToLean p.2)]).toArray)]
+
+def decOutcome (r : GoDec.R (List (Str × Val))) : Lean.Json :=
+  match r with
+  | .ok vs => Lean.Json.mkObj [("val", valToLean (.msg vs))]
+  | .error e =>
+    let (cls, key) : String × Str := match e with
+      | .unknownField k => ("unknown_field", k)
+      | .badValue k => ("bad_value", k)
+      | .goType k => ("go_type", k)
+      | .notObject => ("not_object", [])
+      | .unsupported w => ("unsupported", w)
+    Lean.Json.mkObj [("err", Lean.Json.mkObj [("class", Lean.Json.str cls), ("key", Lean.Json.str (String.ofList key))])]
+
 def opSpecEnc (j : Lean.Json) : Lean.Json :=
   let rq := requestOf (j.getObjValD "rq")
   let ty := getStr j "type"
@@ -55,10 +81,20 @@ def opSpecEnc (j : Lean.Json) : Lean.Json :=
     match valOf (j.getObjValD "val") with
     | .msg vs =>
       let fuel := 64
-      Lean.Json.mkObj [("spec", toLeanJson (enc rq fuel m vs)), ("pj", toLeanJson (pj rq fuel m vs)),
-        ("impl", toLeanJson (WireEnc.wireEnc rq fuel m vs)), ("modelled", Lean.Json.bool (WireEnc.modelled rq m)),
+      let spec := enc rq fuel m vs
+      let impl := GoJson.serverEnc rq fuel m vs
+      let template : String :=
+        if Impl.hasFlatten m then "flatten" else if Impl.needsOneofMarshal m then "oneof"
+        else if GoJson.isRootUnwrap m then "root"
+        else if GoJson.isContainer rq m then "container" else "surgery"
+      Lean.Json.mkObj [("spec", toLeanJson spec), ("pj", toLeanJson (pj rq fuel m vs)),
+        ("impl", match impl with | some i => toLeanJson i | none => Lean.Json.null),
+        ("modelled", Lean.Json.bool true),
+        ("template", Lean.Json.str template),
         ("custom", Lean.Json.bool (WireEnc.hasCustomMarshal rq m)),
-        ("encode_fails", Lean.Json.bool (WireEnc.encodeFails m vs))]
+        ("encode_fails", Lean.Json.bool impl.isNone),
+        ("impl_rt", match impl with | some i => decOutcome (GoDec.serverDec rq fuel m i) | none => Lean.Json.null),
+        ("impl_dec_spec", decOutcome (GoDec.serverDec rq fuel m spec))]
     | _ => Lean.Json.mkObj [("driver_err", Lean.Json.str "value is not a message")]
 
 end Sebuf.Driver
